@@ -120,3 +120,20 @@ PROPS["C08"]["go_tests"] = ["TestVerifRing", "TestVerifRingStore"]
 PROPS["C08"]["rule"] += "; plus the same stepping through real Store.Get calls on one stripe, with schedules that park 12..17 readers between their tail CAS and the publication of their slot before another reader takes over the drain"
 
 PROPS["C20"]["timeout"] = {"quick": 300, "thorough": 1200}
+
+PROPS["C10"] = {
+    "props_files": ["Props/C10.v"],
+    "go_tests": ["TestVerifClose"],
+    "go_tests_root": ["TestVerifRootClose"],
+    "level": "proof",
+    "rule": "scenario runs on the real code: 200..1450 goroutines (Set/Delete/loading Get/Wait), more in-flight writes than the write queue holds with "
+            "maintenance stalled in half of the trials, Close at a random moment; plain, loading and hybrid stores; then inertness and a goroutine "
+            "census (runtime.Stack) ; plus all four public cache kinds through the builders; a trial is non-trivial by construction",
+    "trusted_base": [KERNEL, HARNESS, "modelled, not verified: Go select/channel/context semantics (a select with a ready ctx.Done case never blocks); "
+                     "goroutine scheduling fairness (a runnable goroutine eventually runs); wall-clock timeouts of 3-10 s in the scenario runs decide 'returned'"],
+    "assumptions": ["the Go scheduler is fair", "a call that has not returned 10 s after Close counts as blocked forever (search direction only)"],
+    "impl_only_traces": ["close", "rootclose"],
+    "explanation": "blocking-point model: after the context is cancelled every blocked process has an enabled finishing step; store model is inert after Close; "
+                   "the real code is exercised with calls racing Close and a goroutine census",
+    "timeout": {"quick": 600, "thorough": 1500},
+}
